@@ -676,4 +676,109 @@ theorem initiateValidatorExit_total (cfg : Config) (cur activeCount : Nat) (vals
     · simp
     · simp
 
+/-! ### (h) attestation timing -/
+
+/-- the spec's four timing assertions of `process_attestation` (Nat arithmetic, no wrap) -/
+def specTimingOk (SPE MIN : Nat) (deneb : Bool) (stateSlot dataSlot targetEpoch : Nat) : Prop :=
+  let current := stateSlot / SPE
+  let previous := current - 1  -- get_previous_epoch: GENESIS_EPOCH stays GENESIS_EPOCH
+  (targetEpoch = previous ∨ targetEpoch = current) ∧ targetEpoch = dataSlot / SPE ∧
+  dataSlot + MIN ≤ stateSlot ∧ (deneb = false → stateSlot ≤ dataSlot + SPE)
+
+theorem div_le_imp_lt (a b n : Nat) (hn : 0 < n) (h : a / n ≤ b / n) : a < b + n := by
+  have h1 : a < (a / n + 1) * n := by
+    have := Nat.lt_mul_div_succ a hn; rw [Nat.mul_comm]; exact this
+  have h2 : (a / n + 1) * n ≤ (b / n + 1) * n := Nat.mul_le_mul_right n (by omega)
+  have h3 : b / n * n ≤ b := Nat.div_mul_le_self b n
+  have h4 : (b / n + 1) * n = b / n * n + n := by rw [Nat.add_mul, Nat.one_mul]
+  omega
+
+theorem attestationTiming_eq (SPE MIN : Nat) (deneb : Bool) (cur slot target : Nat)
+    (hspe : 0 < SPE) (hmin : MIN ≤ SPE) (hcur : cur + 2 * SPE < 2 ^ 64) :
+    attestationTimingOk SPE MIN deneb cur slot target = true ↔ specTimingOk SPE MIN deneb cur slot target := by
+  unfold attestationTimingOk specTimingOk
+  simp only
+  have hkey : slot / SPE ≤ cur / SPE → slot < cur + SPE := div_le_imp_lt slot cur SPE hspe
+  generalize cur / SPE = c at *
+  generalize slot / SPE = e at *
+  by_cases h1 : target < c - 1
+  · rw [if_pos h1]
+    constructor
+    · intro h; cases h
+    · rintro ⟨h, -⟩; omega
+  · rw [if_neg h1]
+    by_cases h2 : target > c
+    · rw [if_pos h2]
+      constructor
+      · intro h; cases h
+      · rintro ⟨h, -⟩; omega
+    · rw [if_neg h2]
+      by_cases h3 : target = e
+      · have h3n : ¬ (target ≠ e) := fun h => h h3
+        rw [if_neg h3n]
+        have hlt : slot < cur + SPE := hkey (by omega)
+        have hm1 : (slot + SPE) % 2 ^ 64 = slot + SPE := Nat.mod_eq_of_lt (by omega)
+        have hm2 : (slot + MIN) % 2 ^ 64 = slot + MIN := Nat.mod_eq_of_lt (by omega)
+        rw [hm1, hm2]
+        subst h3
+        have hpc : target = c - 1 ∨ target = c := by omega
+        cases deneb
+        · by_cases ha : cur ≤ slot + SPE <;> by_cases hb : slot + MIN ≤ cur <;> simp [ha, hb, hpc]
+        · by_cases hb : slot + MIN ≤ cur <;> simp [hb, hpc]
+      · rw [if_pos h3]
+        constructor
+        · intro h; cases h
+        · rintro ⟨-, h, -⟩; exact absurd h h3
+
+/-- `S`'s `attestation_timing` succeeds exactly when the four assertions hold -/
+theorem spec_timing_iff (cfg : Config) (s : State) (data : AttestationData)
+    (hcur : s.slot + 2 * cfg.SLOTS_PER_EPOCH < 2 ^ 64) (hmin : cfg.MIN_ATTESTATION_INCLUSION_DELAY ≤ cfg.SLOTS_PER_EPOCH) :
+    Block.attestation_timing cfg s data = .ok () ↔
+      specTimingOk cfg.SLOTS_PER_EPOCH cfg.MIN_ATTESTATION_INCLUSION_DELAY (decide (s.fork ≥ .deneb)) s.slot data.slot data.target.epoch := by
+  unfold Block.attestation_timing specTimingOk get_previous_epoch get_current_epoch compute_epoch_at_slot GENESIS_EPOCH
+  simp only
+  have hprev : (if s.slot / cfg.SLOTS_PER_EPOCH = 0 then 0 else s.slot / cfg.SLOTS_PER_EPOCH - 1) = s.slot / cfg.SLOTS_PER_EPOCH - 1 := by
+    split <;> omega
+  rw [hprev]
+  generalize s.slot / cfg.SLOTS_PER_EPOCH = c
+  generalize data.slot / cfg.SLOTS_PER_EPOCH = e
+  generalize data.target.epoch = t
+  by_cases h1 : t = c - 1 ∨ t = c
+  · have h1b : (decide (t = c - 1) || decide (t = c)) = true := by
+      simpa using h1
+    by_cases h2 : t = e
+    · subst h2
+      have h2 : t = t := rfl
+      by_cases h3 : data.slot + cfg.MIN_ATTESTATION_INCLUSION_DELAY ≤ s.slot
+      · have hu : u64 (data.slot + cfg.MIN_ATTESTATION_INCLUSION_DELAY) "attestation.slot overflow" = Except.ok (data.slot + cfg.MIN_ATTESTATION_INCLUSION_DELAY) := by
+          unfold u64; simp [pure, Except.pure]; omega
+        by_cases hd : s.fork ≥ .deneb
+        · simp [require, h1b, h2, h3, hu, hd, bind, Except.bind, pure, Except.pure, h1]
+        · have hu2 : u64 (data.slot + cfg.SLOTS_PER_EPOCH) "attestation.slot overflow" = Except.ok (data.slot + cfg.SLOTS_PER_EPOCH) := by
+            unfold u64; simp [pure, Except.pure]; omega
+          by_cases h4 : s.slot ≤ data.slot + cfg.SLOTS_PER_EPOCH
+          · simp [require, h1b, h2, h3, hu, hd, hu2, h4, bind, Except.bind, pure, Except.pure, h1]
+          · simp [require, h1b, h2, h3, hu, hd, hu2, h4, bind, Except.bind, pure, Except.pure, h1, invalid, throw, throwThe, MonadExceptOf.throw]
+      · by_cases hov : data.slot + cfg.MIN_ATTESTATION_INCLUSION_DELAY < 2 ^ 64
+        · have hu : u64 (data.slot + cfg.MIN_ATTESTATION_INCLUSION_DELAY) "attestation.slot overflow" = Except.ok (data.slot + cfg.MIN_ATTESTATION_INCLUSION_DELAY) := by
+            unfold u64; simp [pure, Except.pure, hov]
+          simp [require, h1b, h2, h3, hu, bind, Except.bind, pure, Except.pure, h1, invalid, throw, throwThe, MonadExceptOf.throw]
+        · have hu : ∃ e, u64 (data.slot + cfg.MIN_ATTESTATION_INCLUSION_DELAY) "attestation.slot overflow" = Except.error e := by
+            unfold u64; simp [hov, throw, throwThe, MonadExceptOf.throw]
+          obtain ⟨er, hu⟩ := hu
+          simp [require, h1b, h2, h3, hu, bind, Except.bind, pure, Except.pure, h1]
+    · simp [require, h1b, h2, bind, Except.bind, pure, Except.pure, h1, invalid, throw, throwThe, MonadExceptOf.throw]
+  · have h1b : (decide (t = c - 1) || decide (t = c)) = false := by
+      simpa using h1
+    simp [require, h1b, bind, Except.bind, h1, invalid, throw, throwThe, MonadExceptOf.throw]
+
+/-- (h) the timing checks as coded (wrapping `uint64` sums) accept exactly what the spec's assertions accept -/
+theorem attestation_window_eq (cfg : Config) (s : State) (data : AttestationData)
+    (hspe : 0 < cfg.SLOTS_PER_EPOCH) (hmin : cfg.MIN_ATTESTATION_INCLUSION_DELAY ≤ cfg.SLOTS_PER_EPOCH)
+    (hcur : s.slot + 2 * cfg.SLOTS_PER_EPOCH < 2 ^ 64) :
+    attestationTimingOk cfg.SLOTS_PER_EPOCH cfg.MIN_ATTESTATION_INCLUSION_DELAY (decide (s.fork ≥ .deneb)) s.slot data.slot data.target.epoch = true
+      ↔ Block.attestation_timing cfg s data = .ok () := by
+  rw [spec_timing_iff cfg s data hcur hmin]
+  exact attestationTiming_eq _ _ _ _ _ _ hspe hmin hcur
+
 end Zrnt.Proofs.BeaconBlock
